@@ -204,19 +204,21 @@ def fn_roi(spec, rec):
     rot = spec.get("rotate")
     if rot is not None and rs["k"] in ("rect", "ellipse", "poly"):
         th0 = rs.get("theta", 0.0) if has_theta(rs) else 0.0
-        work.rotate_to(rot)
-        dth = rot - th0
-        c, s_ = math.cos(dth), math.sin(dth)
-        xr = cx + c * (x - cx) - s_ * (y - cy)
-        yr = cy + s_ * (x - cx) + c * (y - cy)
-        okr = ok & (np.abs(d) > G.tau(rs, xr, yr) * 2)
-        compare(work.contains(xr, yr), d, okr, "rotate_to-not-a-rotation/" + rs["k"], rs, xr, yr)
-        if abs(getattr(work, "theta", rot) - rot) > 0:
-            raise Mismatch("rotate_to-theta-not-recorded", None)
-        # centre unchanged by rotation
-        c3 = work.center()
-        if abs(c3[0] - cx) > 1e-8 * (G.scale_of(rs) + abs(cx) + 1) or abs(c3[1] - cy) > 1e-8 * (G.scale_of(rs) + abs(cy) + 1):
-            raise Mismatch("rotate_to-moved-centre/" + rs["k"], {"got": [float(c3[0]), float(c3[1])], "expected": [cx, cy]})
+        # a chain of absolute rotations: after each one the region is the original rotated by (angle - initial angle) about the centre
+        for step, ang in enumerate([rot] + list(spec.get("rotate_more") or [])):
+            work.rotate_to(ang)
+            dth = ang - th0
+            c, s_ = math.cos(dth), math.sin(dth)
+            xr = cx + c * (x - cx) - s_ * (y - cy)
+            yr = cy + s_ * (x - cx) + c * (y - cy)
+            okr = ok & (np.abs(d) > G.tau(rs, xr, yr) * (2 + 2 * step))
+            compare(work.contains(xr, yr), d, okr, "rotate_to-not-a-rotation/" + rs["k"] + ("" if step == 0 else "/later-in-a-chain"), rs, xr, yr)
+            if abs(getattr(work, "theta", ang) - ang) > 0:
+                raise Mismatch("rotate_to-theta-not-recorded" + ("" if step == 0 else "/later-in-a-chain"), {"theta": float(work.theta), "asked": ang})
+            # centre unchanged by rotation
+            c3 = work.center()
+            if abs(c3[0] - cx) > 1e-8 * (G.scale_of(rs) + abs(cx) + 1) or abs(c3[1] - cy) > 1e-8 * (G.scale_of(rs) + abs(cy) + 1):
+                raise Mismatch("rotate_to-moved-centre/" + rs["k"], {"got": [float(c3[0]), float(c3[1])], "expected": [cx, cy]})
 
     near = ok & (np.abs(d) <= 0.1 * G.min_size(rs) * 1.0001)
     both = bool((near & (d > 0)).any() and (near & (d < 0)).any())
@@ -377,6 +379,7 @@ def roi_cases(draw):
     spec = {"roi": rs, "pts": draw(st.lists(pt, max_size=6)), "layout": draw(st.sampled_from(LAYOUTS)),
             "idx": draw(st.lists(st.integers(0, 500), min_size=1, max_size=3)),
             "move": draw(st.one_of(st.none(), pt)), "rotate": draw(st.one_of(st.none(), gen.angle())),
+            "rotate_more": draw(st.one_of(st.just([]), st.lists(gen.angle(), min_size=1, max_size=3))),
             "transform_restored": draw(st.booleans())}
     if rs["k"] in ("xrange", "yrange") and spec["move"] is not None:
         spec["move"] = spec["move"][:1]
